@@ -261,6 +261,56 @@ Theorem sized_free_matches_alloc_chunk : forall c, MsgModel.ch_cap c = length (M
 Proof. exact chunk_free_size_is_alloc_size. Qed.
 Print Assumptions sized_free_matches_alloc_chunk.
 
+From Coq Require Import Permutation.
+From NngV Require Import Ledger.ChunkAlloc Ledger.ChunkAllocProofs Ledger.ChunkCur.
+(* message.c again, this time with the cap FIELD kept apart from the size the block was allocated
+   with (Ledger/ChunkAlloc.v: nni_chunk_grow / append / insert / trim / chop / dup / free, nni_msg_alloc /
+   dup / realloc / reserve / free, the header operations; every function returns its allocator events).
+   For every history of message operations in any number of slots, with any choice of failing
+   allocations, messages handed to sends and adopted from receives: every event is acceptable to the
+   allocator's books -- an id is allocated once, a free names a live block with the size it was
+   allocated with -- and the books equal what the slots hold, so they are empty once every message
+   has been freed or sent.  `sane` = in both re-allocating branches of nni_chunk_grow the old buffer is
+   freed BEFORE the cap field is overwritten. *)
+Theorem sized_free_matches_alloc_msg_ops : forall cf n ops st evs,
+  sane cf -> mrun cf (ms_init n) ops = (st, evs) ->
+  exists t, treplay [] evs = Some t /\ Permutation t (owned cf (s_slots st)).
+Proof. exact chunk_events_sized. Qed.
+Print Assumptions sized_free_matches_alloc_msg_ops.
+Theorem msg_ops_books_empty_after_free : forall cf n ops st evs,
+  sane cf -> mrun cf (ms_init n) ops = (st, evs) -> all_empty st -> treplay [] evs = Some [].
+Proof. exact chunk_books_empty_after_free. Qed.
+Print Assumptions msg_ops_books_empty_after_free.
+(* what an accepted free says: the books hold that block with exactly that size and no other *)
+Theorem accepted_free_names_allocated_size : forall t b n t',
+  ids_unique t -> tstep t (EF b n) = Some t' -> In (b, n) t /\ (forall n', In (b, n') t -> n' = n).
+Proof. exact free_names_allocated_size. Qed.
+Print Assumptions accepted_free_names_allocated_size.
+(* the current source has that order (both flags are read from message.c on every run) *)
+Theorem msg_ops_current_source_sane : forall ssz, sane (chunk_cfg_cur ssz).
+Proof. intros ssz. split; reflexivity. Qed.
+Print Assumptions msg_ops_current_source_sane.
+Theorem sized_free_matches_alloc_msg_ops_holds : forall ssz n ops st evs,
+  mrun (chunk_cfg_cur ssz) (ms_init n) ops = (st, evs) ->
+  exists t, treplay [] evs = Some t /\ Permutation t (owned (chunk_cfg_cur ssz) (s_slots st)).
+Proof. intros ssz n ops st evs H. exact (chunk_events_sized _ n ops st evs (msg_ops_current_source_sane ssz) H). Qed.
+Print Assumptions sized_free_matches_alloc_msg_ops_holds.
+(* with the cap field overwritten first the statement is false: nng_msg_alloc(&m, 16) and
+   nng_msg_append(m, buf, 300) free the block of 80 bytes as 348 *)
+Theorem sized_free_matches_alloc_msg_ops_refuted_cap_first :
+  exists ops st evs, mrun (cfg_of true) (ms_init 1) ops = (st, evs) /\ treplay [] evs = None.
+Proof. exact chunk_events_sized_refuted_cap_first. Qed.
+Print Assumptions sized_free_matches_alloc_msg_ops_refuted_cap_first.
+(* not vacuous: 12 events, two blocks still held at the end, the last append refused *)
+Example msg_ops_books_nonvacuous :
+  let '(st, evs) := mrun (cfg_of false) (ms_init 2)
+     [(MAlloc 0 4, None); (MInsert 0 100, None); (MDup 0 1, None); (MReserve 1 4096, None);
+      (MAlloc 0 1, None); (MFree 0, None); (MRealloc 1 9000, None); (MAppend 1 8, Some 0%nat)] in
+  evs = [EA 0 248; EA 1 68; EA 2 136; EF 1 68; EA 3 248; EA 4 136; EA 5 4096; EF 4 136; EF 2 136;
+         EF 0 248; EA 6 9000; EF 5 4096] /\
+  treplay [] evs = Some [(6%nat, 9000%N); (3%nat, 248%N)] /\ mobs st 1 = Some (9000, 0, 9000, 9000, 0)%N.
+Proof. exact chunk_books_nonvacuous. Qed.
+
 (* ================= 6. non-vacuity ================= *)
 (* a history on which the ledger works: PUB, two subscribers, two sends (clones), one transport
    completion, one failed completion, a buffer shrink that frees a queued copy -- the contract
